@@ -18,6 +18,9 @@ use std::{
     sync::{atomic::Ordering, Arc},
 };
 
+/// Thorough tier: occasionally generate graphs with 200 / 999 / 1000 nodes.
+static BIG_GRAPHS: std::sync::atomic::AtomicBool = std::sync::atomic::AtomicBool::new(false);
+
 pub const D2_SIGNATURE: &str = "D2:two-solutions-same-contract-same-key-different-values";
 
 struct Eng<'a> {
@@ -159,6 +162,9 @@ impl<'a> Eng<'a> {
 
 fn opts_for(prop: &str, r: &mut Rng) -> GenOpts {
     let mut o = GenOpts::default();
+    if BIG_GRAPHS.load(Ordering::Relaxed) {
+        o.big_graphs = 0.002;
+    }
     match prop {
         "C01" => {
             o.p_raw_graph = 0.08;
@@ -365,6 +371,7 @@ pub fn run(args: &Args, rep: &mut Report) {
     let mut r = Rng::new(crate::rng::mix(args.seed.wrapping_mul(1_000_003) + args.shard as u64, 0x5ce7));
     let scale = |q: f64, t: f64| (((if thorough { t } else { q }) * args.scale) as u64 / args.nshards as u64).max(1);
     let mut e = Eng { rep, spy: spy.clone(), pools: Pools::new(), orders: BTreeSet::new(), last_digests: BTreeMap::new() };
+    BIG_GRAPHS.store(thorough && args.regime != "miri" && args.regime != "tsan", Ordering::Relaxed);
     match args.prop.as_str() {
         "C01" | "C03" | "C06" | "C16" => {
             let n = scale(30_000.0, 1_200_000.0);
